@@ -3592,7 +3592,8 @@ const XPathProcessorImpl::size_type     XPathProcessorImpl::s_functionTableSize 
 
 const XPathProcessorImpl::TableEntry    XPathProcessorImpl::s_nodeTypeTable[] =
 {
-    { XPathProcessorImpl::s_asteriskString, XPathExpression::eNODETYPE_ANYELEMENT },
+    // NodeType ::= 'comment' | 'text' | 'processing-instruction' | 'node'
+    // ('*' is a name test, not a node type: "child::*()" is not a step.)
     { XPathProcessorImpl::s_nodeString, XPathExpression::eNODETYPE_NODE },
     { XPathProcessorImpl::s_textString, XPathExpression::eNODETYPE_TEXT },
     { XPathProcessorImpl::s_commentString, XPathExpression::eNODETYPE_COMMENT },
